@@ -5,6 +5,7 @@ import (
 	"bytes"
 	"encoding/json"
 	"fmt"
+	"golang.org/x/crypto/chacha20poly1305"
 	"io"
 	"math/rand"
 	"os"
@@ -322,9 +323,50 @@ func byteLevel(run *vk.Run, seed int64) {
 			run.Distinct(fmt.Sprintf("trailing:%d:%d", n, t))
 		}
 	}
+	emptyFinalAfterFull(run, rng)
 	if run.Thorough() {
 		carry(run, id, rng)
 		secondCarryReplay(run, rng)
+	}
+}
+
+// emptyFinalAfterFull: k full chunks followed by an empty final chunk is a second chunking of the same plaintext and must
+// be rejected for every k >= 1, in particular where the counter's low byte is zero again (k = 256, 512), whatever the
+// caller's buffer size. The payload is sealed here under a known stream key and read through stream.NewReader.
+func emptyFinalAfterFull(run *vk.Run, rng *rand.Rand) {
+	key := make([]byte, 32)
+	rng.Read(key)
+	a, err := chacha20poly1305.New(key)
+	if err != nil {
+		vk.Infra("%v", err)
+	}
+	block := make([]byte, strm.Chunk)
+	rng.Read(block)
+	ks := []int{1, 2, 255, 256, 257, 512}
+	if run.Thorough() {
+		ks = append(ks, 3, 128, 254, 768, 1024)
+	}
+	for _, k := range ks {
+		payload := make([]byte, 0, k*strm.EncChunk+16)
+		for c := 0; c < k; c++ {
+			payload = a.Seal(payload, strm.Nonce(c, false), block, nil)
+		}
+		honestEnd := len(payload)
+		payload = a.Seal(payload, strm.Nonce(k, true), nil, nil)
+		for _, pol := range []string{"readall", "buf65536", "buf100000", "copy"} {
+			r, err := stream.NewReader(key, bytes.NewReader(payload))
+			if err != nil {
+				vk.Infra("%v", err)
+			}
+			res := strm.Drain(r, pol)
+			run.Eval(1)
+			sig := fmt.Sprintf("empty-final-after-%d-full:%s", k, pol)
+			if res.Err == io.EOF || res.Err == nil {
+				run.Violation("C02:clean-eof-on-altered-payload:"+sig, fmt.Sprintf("%d full chunks followed by an empty final chunk (a second chunking of a %d-byte plaintext) ended with a clean EOF under read policy %s", k, k*strm.Chunk, pol), map[string]interface{}{"check": "C02.emptyfinal", "k": k, "policy": pol})
+			}
+			run.Distinct(sig)
+		}
+		_ = honestEnd
 	}
 }
 
